@@ -537,7 +537,9 @@ def run(ctx):
             kn = Kalman(mk_ss(A, C, G, H), to_np(col(xh)), to_np(S0))
             yobjs = [to_np(col(y)) for y in ys]
         else:
-            if objs.get("kn") is not None:
+            if objs.get("keep"):
+                kn = objs["kn"]                  # continue from the instance's current state (history stream)
+            elif objs.get("kn") is not None:
                 kn = objs["kn"]
                 kn.set_state(objs["x"], objs["S"])
             else:
@@ -765,6 +767,113 @@ def run(ctx):
             ctx.spec_fail("kalman_caller_modified", "the filter modified the caller's objects %s" % changed,
                           {"op": "kalman", "mode": "update", "forms": forms, "A": ratm(A), "C": ratm(C), "G": ratm(G),
                            "H": ratm(H), "x_hat": rats(xh), "Sigma": ratm(S0), "ys": ratm(ys1)})
+
+    # ---- Kalman: histories of public calls on ONE instance ----------------------------------------------
+    # stationary_values (both methods) / K_infinity / Sigma_infinity / whitener_lss / stationary_coefficients /
+    # stationary_innovation_covar interleaved with set_state / prior_to_filtered / filtered_to_forecast / update,
+    # including priors within 1e-6 .. 1e-2 of Sigma_infinity and fast-converging models.  Every state-changing call is
+    # judged from the instance's exact current state (one-step batch oracle + model), the whole history is replayed by
+    # the model's `history` op, and the stationary calls must leave (x_hat, Sigma) bit-for-bit unchanged.
+    STAT_KINDS = ["sv-doubling", "sv-qz", "K_infinity", "Sigma_infinity", "whitener_lss", "coef-ma", "coef-var", "innov-covar"]
+
+    def do_stat(kn, kind):
+        if kind == "sv-doubling":
+            kn.stationary_values()
+        elif kind == "sv-qz":
+            kn.stationary_values(method="qz")
+        elif kind == "K_infinity":
+            kn.K_infinity
+        elif kind == "Sigma_infinity":
+            kn.Sigma_infinity
+        elif kind == "whitener_lss":
+            kn.whitener_lss()
+        elif kind == "coef-ma":
+            kn.stationary_coefficients(3, "ma")
+        elif kind == "coef-var":
+            kn.stationary_coefficients(2, "var")
+        else:
+            kn.stationary_innovation_covar()
+
+    for _ in range(ctx.n(45, 500)):
+        n, k, m = rng.randint(1, 3), rng.randint(1, 2), rng.randint(1, 2)
+        akind = rng.choice(["stable", "fast", "fast", "tri"])
+        A = gen_A(rng, n, "tri" if akind == "tri" else "stable")
+        if akind == "fast":
+            A = scal(F(1, 4), A)                  # the covariance recursion converges in one to three steps
+        C = gen_C(rng, n, m, rng.choice(["full", "full", "rank1"]))
+        G = gen_mat(rng, k, n, den=2, lo=-3, hi=3)
+        H = gen_H(rng, k, "full")
+        xh, S0 = gen_vec(rng, n), gen_psd(rng, n, rng.choice(["full", "low"]))
+        ss = mk_ss(A, C, G, H)
+        x0np, S0np = to_np(col(xh)), to_np(S0)
+        kn = Kalman(ss, x0np, S0np)
+        plan = ["update"] * rng.randint(0, 2) + [rng.choice(STAT_KINDS)]
+        for _j in range(rng.randint(3, 7)):
+            plan.append(rng.choice(["update", "update", "update", "update", "set-near", "set-near", "set-far", "set-exact",
+                                    "p2f", "f2f", rng.choice(STAT_KINDS)]))
+        hist_line, hist_impl, cnt, cache = [], [], 0, False
+        hreplay = {"op": "history", "A": ratm(A), "C": ratm(C), "G": ratm(G), "H": ratm(H), "x_hat": rats(xh),
+                   "Sigma": ratm(S0), "calls": []}
+        ok_hist = True
+        for op in plan:
+            xcur, Scur = [r_[0] for r_ in fm(kn.x_hat)], fm(kn.Sigma)
+            if op in STAT_KINDS:
+                xb, Sb = np.array(kn.x_hat), np.array(kn.Sigma)
+                try:
+                    do_stat(kn, op)
+                    Sinf, Kinf = np.array(kn.Sigma_infinity), np.array(kn.K_infinity)
+                except (ValueError, LinAlgError) as e:
+                    ctx.count("history:stat-raised-" + type(e).__name__)
+                    ok_hist = False
+                    break
+                cache = True
+                ctx.count("history:" + op)
+                hreplay["calls"].append(op)
+                if not (np.array_equal(xb, kn.x_hat) and np.array_equal(Sb, kn.Sigma)):
+                    ctx.spec_fail("history_stat_changes_state", "%s changed (x_hat, Sigma)" % op, hreplay)
+                hist_line.append("op%d=stat Sg%d=%s" % (cnt, cnt, ratm(fm(Sinf))))
+            elif op.startswith("set"):
+                if op == "set-far" or not cache:
+                    xs, Ss = gen_vec(rng, n), gen_psd(rng, n, rng.choice(["full", "low"]))
+                    op = "set-far"
+                else:
+                    Sinf_e = fm(np.array(kn.Sigma_infinity))
+                    Ss = [[(Sinf_e[i_][j_] + Sinf_e[j_][i_]) / 2 for j_ in range(n)] for i_ in range(n)]
+                    if op == "set-near":
+                        L = gen_mat(rng, n, n, den=1, lo=-2, hi=2)
+                        P = mm(L, tr(L))
+                        pm = maxabs(P)
+                        d = F(1, 2 ** rng.randint(7, 20))     # perturbation of absolute size 7.8e-3 .. 9.5e-7
+                        if pm > 0:
+                            Ss = madd(Ss, scal(d / pm, P))
+                        ctx.count("history:set-near-2^-%d" % (d.denominator.bit_length() - 1))
+                    xs = gen_vec(rng, n)
+                xnp, Snp = to_np(col(xs)), to_np(Ss)
+                kn.set_state(xnp, Snp)
+                xs, Ss = [r_[0] for r_ in fm(xnp)], fm(Snp)   # the exact doubles handed over
+                ctx.count("history:" + op)
+                hreplay["calls"].append("%s x=%s S=%s" % (op, rats(xs), ratm(Ss)))
+                hist_line.append("op%d=set x%d=%s S%d=%s" % (cnt, cnt, rats(xs), cnt, ratm(Ss)))
+            else:
+                y = gen_real(rng, k) if rng.random() < 0.3 else gen_vec(rng, k)
+                ys_ = [] if op == "f2f" else [y]
+                ctx.count("history:" + op + ("-after-stat" if cache else ""))
+                if cache and op == "update":
+                    Sinf_np = np.array(kn.Sigma_infinity)
+                    if np.allclose(np.array(kn.Sigma), Sinf_np, rtol=1e-4, atol=1e-2) and not np.array_equal(np.array(kn.Sigma), Sinf_np):
+                        ctx.count("history:update-within-1e-2-of-Sigma_inf")
+                hreplay["calls"].append("%s y=%s" % (op, rats(y)) if ys_ else op)
+                o_ = dict(kn=kn, keep=True, ys=[to_np(col(y))] if ys_ else [], forms="history: " + "; ".join(hreplay["calls"]))
+                kalman_case(A, C, G, H, xcur, Scur, ys_, op, objs=o_, tag="kalman-history")
+                hist_line.append("op%d=%s" % (cnt, op) + (" y%d=%s" % (cnt, rats(y)) if ys_ else ""))
+            hist_impl.append("x%d=%s S%d=%s K%d=%s" % (cnt, wire_f(kn.x_hat), cnt, wire_f(kn.Sigma), cnt,
+                                                      wire_f(kn.K_infinity) if cache else "-"))
+            cnt += 1
+        if ok_hist and cnt:
+            line = "C12 history %s x=%s S=%s n=%d %s" % (ss_line(A, C, G, H), rats([r_[0] for r_ in fm(x0np)]),
+                                                         ratm(fm(S0np)), cnt, " ".join(hist_line))
+            cases.append(Case(line, "ok " + " ".join(hist_impl), nontrivial=True, cmp=env_cmp(ENV_K, errs_k), tag="history"))
+            ctx.count("history:A-" + akind)
 
     # ---- Kalman: stationary values ------------------------------------------------------------------
     n_stat = ctx.n(30, 700)
